@@ -47,7 +47,12 @@ func Main(s Stream) {
 // Rng is splitmix64: every random choice of a run derives from one seed.
 type Rng struct{ s uint64 }
 
-func NewRng(seed uint64) *Rng { return &Rng{seed*0x9E3779B97F4A7C15 + 0x1234567} }
+// The state is the generator's own output for the seed: consecutive seeds must not give shifted copies of one sequence.
+func NewRng(seed uint64) *Rng {
+	r := &Rng{seed ^ 0x1234567}
+	r.s = r.Next() ^ (seed << 32)
+	return r
+}
 func (r *Rng) Next() uint64 {
 	r.s += 0x9E3779B97F4A7C15
 	z := r.s
